@@ -115,54 +115,165 @@ def parse(repo):
     tc = _strip(open(os.path.join(repo, 'src', 'Type.c'), errors='replace').read())
     wiring = None
     m = re.search(r'static\s+var\s+Type_Instance\s*\(\s*var\s+self\s*,\s*var\s+cls\s*\)\s*\{(.*?)\n\}', tc, flags=re.S)
+    wiring_form = None
     if m:
         wiring = [(int(a), b) for a, b in re.findall(r'Type_Cache_Entry\s*\(\s*(\d+)\s*,\s*(\w+)\s*\)\s*;', m.group(1))]
+        wiring_form = 'chain'
+        if not wiring:
+            # table form: the position of a class in Type_Cache_Classes[] is its slot; the loop of Type_Instance runs
+            # over exactly sizeof(table)/sizeof(table[0]) entries
+            mt = re.search(r'static\s+var\s*\*\s*const\s+Type_Cache_Classes\s*\[\s*\]\s*=\s*\{([^}]*)\}\s*;', tc)
+            me = re.search(r'TYPE_CACHE_CLASSES\s*=\s*sizeof\s*\(\s*Type_Cache_Classes\s*\)\s*/\s*sizeof\s*\(\s*Type_Cache_Classes\s*\[\s*0\s*\]\s*\)', tc)
+            if mt and me:
+                ents = [e.strip() for e in mt.group(1).split(',') if e.strip()]
+                if all(re.fullmatch(r'&\s*\w+', e) for e in ents):
+                    wiring = [(i, e.lstrip('&').strip()) for i, e in enumerate(ents)]
+                    wiring_form = 'table'
     mc = re.search(r'#ifndef\s+CELLO_CACHE\b.*?#define\s+CELLO_CACHE_NUM\s+(\d+)', hdr, flags=re.S)
     return dict(wiring=wiring, objects=objects, classes=classes, types=ptypes, problems=problems,
                 cache_num=int(mc.group(1)) if mc else None, type_c=tc, hdr=hdr,
-                type_instance_body=m.group(1) if m else None)
+                type_instance_body=m.group(1) if m else None, wiring_form=wiring_form)
 
 
 def _coq_str(s):
     return '"%s"%%string' % s
 
 
+# ---------------------------------------------------------------------------------------------------------------
+# Accepted forms of the modelled rules.  Texts are compared after removing comments, the contents of string literals
+# (message wording is free) and all white space.  Every form beyond the first is an equivalent shape with its
+# justification; a form selects MODEL PARAMETERS (second component) for which the theorems are proved universally,
+# never a different theorem.  Anything else is a missing definition = broken obligation.
+TYPE_CHECK_INLINE = '#ifCELLO_METHOD_CHECK==1if(type_of(self)isntType){returnthrow(TypeError,"",type_of(self));}#endif'
+TYPE_CHECK_CALL = 'Type_Check(self);'      # helper with the same test; throw does not return (outside the model: TypeError exit)
+TYPE_CHECK_BODY = '{#ifCELLO_METHOD_CHECK==1if(type_of(self)isntType){throw(TypeError,"",type_of(self));}#endif}'
+
+ENTRY_MACRO = {
+    # original: read word, NULL -> scan, store (also a NULL), return the scanned value
+    'if(clsislit){varinst=((var*)self)[i];if(instisNULL){inst=Type_Scan(self,lit);((var*)self)[i]=inst;}returninst;}':
+        dict(skipnull=False, reread=False, helper=None),
+    # helper form: `if (*slot is NULL) *slot = Type_Scan(self, cls); return *slot;` - the word is READ AGAIN for the result
+    # (model parameter reread; proved: a filled word never changes and holds the declared instance)
+    'if(clsislit){returnType_Cache_Fetch(self,lit,i);}':
+        dict(skipnull=False, reread=True,
+             helper='{var*slot=((var*)self)+i;if(*slotisNULL){*slot=Type_Scan(self,cls);}return*slot;}'),
+}
+INSTANCE_CHAIN = ['#ifCELLO_CACHE==1#endifreturnType_Scan(self,cls);',
+                  'returnType_Scan(self,cls);']       # the #if moved around the macro definition (empty macro when the cache is off)
+# table form: same first-match chain (position = slot), scan with cls (= the matched literal), store only a non-NULL
+# result (model parameter skipnull; a NULL result never changes the word, which is NULL at that point)
+INSTANCE_TABLE = ('#ifCELLO_CACHE==1var*slots=self;for(size_ti=0;i<TYPE_CACHE_CLASSES;i++){if(clsisnt*Type_Cache_Classes[i]){continue;}'
+                  'if(slots[i]isntNULL){returnslots[i];}varinst=Type_Scan(self,cls);if(instisntNULL){slots[i]=inst;}returninst;}'
+                  '#endifreturnType_Scan(self,cls);')
+SCAN_FORMS = [
+    'structType*t;t=(structType*)self+CELLO_NBUILTINS;while(t->name){if(t->clsiscls){returnt->inst;}t++;}'
+    't=(structType*)self+CELLO_NBUILTINS;while(t->name){if(strcmp(t->name,Type_Builtin_Name(cls))is0){'
+    't->cls=cls;returnt->inst;}t++;}returnNULL;}',
+    # indexed loops over the same entries; pass 2 bounded by the entry count of pass 1 (names never change, so the count is
+    # the same); `num is 0 -> NULL` = pass 2 over no entries; first-character test before strcmp (strings differing in their
+    # first character are different; both are valid C strings, index 0 is readable): same comparisons in the same order,
+    # same single store
+    'structType*constinsts=(structType*)self+CELLO_NBUILTINS;size_tnum=0;for(num=0;insts[num].nameisntNULL;num++){'
+    'if(insts[num].clsiscls){returninsts[num].inst;}}if(numis0){returnNULL;}constchar*cls_name=Type_Builtin_Name(cls);'
+    'for(size_ti=0;i<num;i++){constchar*ins_name=insts[i].name;if(ins_name[0]isntcls_name[0]){continue;}'
+    'if(strcmp(ins_name,cls_name)isnt0){continue;}insts[i].cls=cls;returninsts[i].inst;}returnNULL;}',
+]
+IMPLEMENTS_FORMS = {
+    '{returnType_Scan(self,cls)isntNULL;}': False,
+    # through the cache: same answer (theorem: both entry points return the declared instance); the entry point becomes a
+    # KInstance lookup in the model (generated flag implements_uses_cache)
+    '{Type_Check(self);returnType_Instance(self,cls)isntNULL;}': True,
+}
+MEMBER_HELPER = '{varmember;memcpy(&member,(char*)inst+offset,sizeof(var));returnmember;}'     # = *(var*)((char*)inst + offset)
+THROW2 = 'returnthrow(ClassError,"",$S(Type_Builtin_Name(self)),$S(Type_Builtin_Name(cls)));'
+THROW3 = 'returnthrow(ClassError,"",$S(Type_Builtin_Name(self)),$S(Type_Builtin_Name(cls)),$(String,(char*)method_name));'
+METHOD_FORMS = {
+    '{varinst=Type_Instance(self,cls);#ifCELLO_METHOD_CHECK==1if(instisNULL){' + THROW2 + '}#endif'
+    '#ifCELLO_METHOD_CHECK==1varmeth=*((var*)(((char*)inst)+offset));if(methisNULL){' + THROW3 + '}#endifreturninst;}': None,
+    # merged test (`or` short-circuits: the member is fetched only from a non-NULL instance) and both ClassError throws in a helper
+    '{varinst=Type_Instance(self,cls);#ifCELLO_METHOD_CHECK==1if(instisNULLorType_Member_At_Offset(inst,offset)isNULL){'
+    'returnType_Method_Missing(self,cls,inst,method_name);}#endifreturninst;}':
+        '{if(instisntNULL){' + THROW3 + '}' + THROW3 + '}',
+}
+IMPL_METHOD_FORMS = {
+    '{varinst=Type_Scan(self,cls);if(instisNULL){returnfalse;}varmeth=*((var*)(((char*)inst)+offset));'
+    'if(methisNULL){returnfalse;}returntrue;}': (False, False),
+    '{varinst=Type_Scan(self,cls);returninstisntNULLandType_Member_At_Offset(inst,offset)isntNULL;}': (False, True),
+    '{Type_Check(self);varinst=Type_Instance(self,cls);if(instisNULL){returnfalse;}return*((var*)(((char*)inst)+offset))isntNULL;}': (True, False),
+}
+CAST_FORMS = [
+    '{structCast*c=instance(self,Cast);if(candc->cast){returnc->cast(self,type);}if(type_of(self)istype){returnself;}'
+    'else{returnthrow(ValueError,"",$S(c_str(type_of(self))),$S(c_str(type)));}}',
+    # type_of(self) computed once, branches swapped
+    '{structCast*c=instance(self,Cast);if(candc->cast){returnc->cast(self,type);}varactual=type_of(self);'
+    'if(actualisnttype){returnthrow(ValueError,"",$S(c_str(actual)),$S(c_str(type)));}returnself;}',
+]
+
+
 def _shapes(P, func_body):
-    """name -> bool : the rule is textually what Dispatch.v models"""
+    """-> (name -> bool : the rule is one of the accepted forms,  params : dict or None)"""
     tc, hdr = P['type_c'], P['hdr']
     sh = {}
-    m = re.search(r'#define\s+Type_Cache_Entry\s*\(\s*i\s*,\s*lit\s*\)((?:.*\\\n)*.*)', tc)
-    want = 'if(clsislit){varinst=((var*)self)[i];if(instisNULL){inst=Type_Scan(self,lit);((var*)self)[i]=inst;}returninst;}'
-    sh['disp_cache_entry_shape_ok'] = bool(m) and _norm(m.group(1).replace('\\\n', ' ')) == want
+    par = dict(skipnull=False, reread=False, implements_cache=False, implements_method_cache=False)
+
+    def body(rx):
+        b = func_body(tc, rx)
+        return _norm(b) if b else None
+    tcheck_ok = body(r'static\s+void\s+Type_Check\s*\(\s*var\s+self\s*\)\s*\{') == TYPE_CHECK_BODY
+    member_ok = body(r'static\s+var\s+Type_Member_At_Offset\s*\(\s*var\s+inst\s*,\s*size_t\s+offset\s*\)\s*\{') == MEMBER_HELPER
+    # cache entry + Type_Instance
     b = P['type_instance_body']
-    ok = b is not None
-    if ok:
-        rest = re.sub(r'Type_Cache_Entry\s*\(\s*\d+\s*,\s*\w+\s*\)\s*;', '', b)
-        ok = _norm(rest) == '#ifCELLO_CACHE==1#endifreturnType_Scan(self,cls);'
-    sh['disp_type_instance_shape_ok'] = ok
-    b = func_body(tc, r'static\s+var\s+Type_Scan\s*\(\s*var\s+self\s*,\s*var\s+cls\s*\)\s*\{')
-    want = ('structType*t;t=(structType*)self+CELLO_NBUILTINS;while(t->name){if(t->clsiscls){returnt->inst;}t++;}'
-            't=(structType*)self+CELLO_NBUILTINS;while(t->name){if(strcmp(t->name,Type_Builtin_Name(cls))is0){'
-            't->cls=cls;returnt->inst;}t++;}returnNULL;}')
-    sh['disp_type_scan_shape_ok'] = bool(b) and _norm(b).endswith(want) and 'Type_Builtin_Name' in tc and \
+    if P.get('wiring_form') == 'table':
+        sh['disp_cache_entry_shape_ok'] = True
+        sh['disp_type_instance_shape_ok'] = b is not None and _norm(b) == INSTANCE_TABLE
+        par['skipnull'] = True
+    else:
+        macros = [_norm(x.group(1).replace('\\\n', ' ')) for x in
+                  re.finditer(r'#define\s+Type_Cache_Entry\s*\(\s*i\s*,\s*lit\s*\)((?:.*\\\n)*.*)', tc)]
+        macros = [x for x in macros if x]          # an empty definition belongs to the cache-off branch
+        form = ENTRY_MACRO.get(macros[0]) if len(macros) == 1 else None
+        ok = form is not None
+        if ok and form['helper']:
+            ok = body(r'static\s+var\s+Type_Cache_Fetch\s*\(\s*var\s+self\s*,\s*var\s+cls\s*,\s*size_t\s+i\s*\)\s*\{') == form['helper']
+        sh['disp_cache_entry_shape_ok'] = ok
+        if ok:
+            par['skipnull'], par['reread'] = form['skipnull'], form['reread']
+        ok = b is not None
+        if ok:
+            rest = re.sub(r'Type_Cache_Entry\s*\(\s*\d+\s*,\s*\w+\s*\)\s*;', '', b)
+            ok = _norm(rest) in INSTANCE_CHAIN
+        sh['disp_type_instance_shape_ok'] = ok
+    # Type_Scan
+    b = body(r'static\s+var\s+Type_Scan\s*\(\s*var\s+self\s*,\s*var\s+cls\s*\)\s*\{')
+    ok = False
+    if b:
+        for f in SCAN_FORMS:
+            if b == '{' + TYPE_CHECK_INLINE + f or (b == '{' + TYPE_CHECK_CALL + f and tcheck_ok):
+                ok = True
+    sh['disp_type_scan_shape_ok'] = ok and \
         bool(re.search(r'static\s+char\*\s*Type_Builtin_Name\s*\(\s*struct\s+Type\*\s*t\s*\)\s*\{\s*return\s+t\[\(CELLO_CACHE_NUM\s*/\s*3\)\+0\]\.inst;\s*\}', tc))
-    b = func_body(tc, r'static\s+bool\s+Type_Implements\s*\(\s*var\s+self\s*,\s*var\s+cls\s*\)\s*\{')
-    sh['disp_implements_shape_ok'] = bool(b) and _norm(b) == '{returnType_Scan(self,cls)isntNULL;}' and \
+    # implements
+    b = body(r'static\s+bool\s+Type_Implements\s*\(\s*var\s+self\s*,\s*var\s+cls\s*\)\s*\{')
+    ok = b in IMPLEMENTS_FORMS and (not IMPLEMENTS_FORMS[b] or tcheck_ok)
+    if ok:
+        par['implements_cache'] = IMPLEMENTS_FORMS[b]
+    sh['disp_implements_shape_ok'] = ok and \
         bool(re.search(r'bool\s+implements\s*\(\s*var\s+self\s*,\s*var\s+cls\s*\)\s*\{\s*return\s+Type_Implements\s*\(\s*Type_Of\s*\(\s*self\s*\)\s*,\s*cls\s*\)\s*;\s*\}', tc)) and \
         bool(re.search(r'var\s+instance\s*\(\s*var\s+self\s*,\s*var\s+cls\s*\)\s*\{\s*return\s+Type_Instance\s*\(\s*Type_Of\s*\(\s*self\s*\)\s*,\s*cls\s*\)\s*;\s*\}', tc))
-    b = func_body(tc, r'static\s+var\s+Type_Method_At_Offset\s*\([^)]*\)\s*\{')
-    want = ('{varinst=Type_Instance(self,cls);#ifCELLO_METHOD_CHECK==1if(instisNULL){returnthrow(ClassError,"",$S(Type_Builtin_Name(self)),$S(Type_Builtin_Name(cls)));}#endif'
-            '#ifCELLO_METHOD_CHECK==1varmeth=*((var*)(((char*)inst)+offset));if(methisNULL){returnthrow(ClassError,"",'
-            '$S(Type_Builtin_Name(self)),$S(Type_Builtin_Name(cls)),$(String,(char*)method_name));}#endifreturninst;}')
-    sh['disp_method_check_shape_ok'] = bool(b) and _norm(b) == want
-    b = func_body(tc, r'static\s+bool\s+Type_Implements_Method_At_Offset\s*\([^)]*\)\s*\{')
-    want = ('{varinst=Type_Scan(self,cls);if(instisNULL){returnfalse;}varmeth=*((var*)(((char*)inst)+offset));'
-            'if(methisNULL){returnfalse;}returntrue;}')
-    sh['disp_implements_method_shape_ok'] = bool(b) and _norm(b) == want
-    b = func_body(tc, r'\nvar\s+cast\s*\(\s*var\s+self\s*,\s*var\s+type\s*\)\s*\{')
-    want = ('{structCast*c=instance(self,Cast);if(candc->cast){returnc->cast(self,type);}if(type_of(self)istype){returnself;}'
-            'else{returnthrow(ValueError,"",$S(c_str(type_of(self))),$S(c_str(type)));}}')
-    sh['disp_cast_shape_ok'] = bool(b) and _norm(b) == want
+    # method_at_offset
+    b = body(r'static\s+var\s+Type_Method_At_Offset\s*\([^)]*\)\s*\{')
+    ok = b in METHOD_FORMS
+    if ok and METHOD_FORMS[b]:
+        ok = member_ok and body(r'static\s+var\s+Type_Method_Missing\s*\([^)]*\)\s*\{') == METHOD_FORMS[b]
+    sh['disp_method_check_shape_ok'] = ok
+    b = body(r'static\s+bool\s+Type_Implements_Method_At_Offset\s*\([^)]*\)\s*\{')
+    ok = b in IMPL_METHOD_FORMS
+    if ok:
+        cached, needs_member = IMPL_METHOD_FORMS[b]
+        ok = (not needs_member or member_ok) and (not cached or tcheck_ok)
+        par['implements_method_cache'] = cached
+    sh['disp_implements_method_shape_ok'] = ok
+    sh['disp_cast_shape_ok'] = body(r'\nvar\s+cast\s*\(\s*var\s+self\s*,\s*var\s+type\s*\)\s*\{') in CAST_FORMS
     ok = bool(re.search(r'#define\s+Instance\s*\(\s*I\s*,\s*\.\.\.\s*\)\s+NULL\s*,\s*#I\s*,\s*&\(\(struct\s+I\)\{__VA_ARGS__\}\)', hdr))
     m = re.search(r'#define\s+CelloObject\s*\(\s*T\s*,\s*S\s*,\s*\.\.\.\s*\)((?:.*\\\n)*.*)', hdr)
     want = ('(var)((char*)((var[]){NULL,CELLO_ALLOC_HEADERCELLO_MAGIC_HEADERCELLO_CACHE_HEADERNULL,"",#T,NULL,"",(var)S,'
@@ -175,7 +286,36 @@ def _shapes(P, func_body):
     ok = ok and P['cache_num'] is not None and bool(m) and \
         _norm(m.group(1).replace('\\\n', ' ')) == 'NULL,' * P['cache_num']
     sh['disp_declaration_shape_ok'] = ok
-    return sh
+    return sh, par
+
+
+def fresh_type_facts(P, func_body):
+    """how a run-time type's cache words start: (Type_Alloc zeroes the block?, number of leading words Type_New clears)"""
+    tc, n = P['type_c'], P['cache_num']
+    b = func_body(tc, r'static\s+var\s+Type_Alloc\s*\(\s*void\s*\)\s*\{')
+    zeroed = None
+    if b:
+        nb = _norm(b)
+        if 'structHeader*head=calloc(1,' in nb:
+            zeroed = True
+        elif 'structHeader*head=malloc(' in nb:
+            zeroed = False
+    b = func_body(tc, r'static\s+void\s+Type_New\s*\(\s*var\s+self\s*,\s*var\s+args\s*\)\s*\{')
+    cleared = None
+    if b and n is not None:
+        nb = _norm(b)
+        if 'structType*t=self;' in nb and 'size_tcache_entries=CELLO_CACHE_NUM/3;' in nb:
+            if 'for(size_ti=0;i<cache_entries;i++){t[i]=(structType){NULL,NULL,NULL};}' in nb:
+                cleared = 3 * (n // 3)
+            elif 'memset(t,0,sizeof(structType)*cache_entries);' in nb:
+                cleared = 3 * (n // 3)
+            elif 'memset(t,0,sizeof(var)*cache_entries);' in nb:
+                cleared = n // 3
+            elif 'memset(t,0,sizeof(var)*CELLO_CACHE_NUM);' in nb:
+                cleared = n
+            else:
+                cleared = 0
+    return zeroed, cleared
 
 
 def generate(repo, emit, src, func_body):
@@ -195,5 +335,17 @@ def generate(repo, emit, src, func_body):
          'Definition builtin_types : list (string * list (string * list bool)) := [\n%s].' % ';\n'.join(
              '  (%s, [%s])' % (_coq_str(t), '; '.join('(%s, %s)' % (_coq_str(c), bl(m)) for c, m in insts))
              for t, insts in P['types']))
-    for k, v in sorted(_shapes(P, func_body).items()):
+    sh, par = _shapes(P, func_body)
+    for k, v in sorted(sh.items()):
         emit(k, ('Definition %s : bool := true.' % k) if v else None)
+
+    def cb(x):
+        return 'true' if x else 'false'
+    # parameters selected by the recognised forms (the theorems quantify over them)
+    emit('cache_write_skips_null', 'Definition cache_write_skips_null : bool := %s.' % cb(par['skipnull']))
+    emit('cache_fetch_rereads', 'Definition cache_fetch_rereads : bool := %s.' % cb(par['reread']))
+    emit('implements_uses_cache', 'Definition implements_uses_cache : bool := %s.' % cb(par['implements_cache']))
+    emit('implements_method_uses_cache', 'Definition implements_method_uses_cache : bool := %s.' % cb(par['implements_method_cache']))
+    zeroed, cleared = fresh_type_facts(P, func_body)
+    emit('type_alloc_zeroed', None if zeroed is None else 'Definition type_alloc_zeroed : bool := %s.' % cb(zeroed))
+    emit('type_new_cleared_words', None if cleared is None else 'Definition type_new_cleared_words : nat := %d.' % cleared)
